@@ -27,3 +27,19 @@ distribution = schedcases.distribution
 def gen(rng, tier):
     n = {"quick": 150, "thorough": 2000, "search": 800}[tier]
     return [schedcases.gen_case(rng) for _ in range(n)]
+
+PINNED = ["C10_holds", "C10_holds_any_listeners", "C10_pass_terminates"]
+LEVEL_TEXT = ("Unbounded theorem over ALL well-formed scheduler histories (any number of coroutines, bodies, priorities, "
+              "pass deadlines, clock steps, cancels, try_resume calls): results reported exactly once by the pass in which "
+              "the coroutine finished, no resumption before a requested wake-up time, nothing runnable or overdue left by "
+              "a pass that was not cut by its deadline, a cancelled coroutine never runs again and nobody else is "
+              "affected; plus termination of every pass. Proved by a lock-step simulation between the model scheduler "
+              "(generic do_schedule over the proved queue and coroutine models) and the specification tracker. Tied to "
+              "/repo by histories on a real Scheduler with a virtual clock, one per child process.")
+LEVEL_NOTE = ("Trusted: Coq kernel + vm_compute; hand transcription of scheduler.rs (Sched.v) validated on sampled histories "
+              "only; BinaryHeap order among equal wake-up times not modelled (cases keep them distinct; the theorem does "
+              "not need distinctness); DashMap/DashSet as maps; wf premise: bodies keep the API contract (end/cancel in "
+              "state Running, syscall-state yields only in Suspend(t)), Clock ops never go below the model clock, all "
+              "values <= u64::MAX. Syscall-suspend heap entries left behind by try_resume can time a later syscall wait "
+              "out early: modelled, outside this property's wake-up clause (which is about delay/until). No axioms.")
+TECHNIQUE = "Coq proof (simulation invariant over all histories of a Gallina scheduler model) + differential correspondence inside Coq"
